@@ -206,6 +206,7 @@ def do_replay(check, path, quiet=False):
     if not quiet and res.get("trace"):
         for line in res["trace"]:
             print("  " + line)
+        print("  sample: " + json.dumps(res.get("sample"), default=str))
     if v:
         same = (data.get("violation") or {}).get("key") == v["key"]
         dig = res["digest"] == data.get("digest")
